@@ -435,7 +435,12 @@ def main():
             if k:
                 known_lines.append(f"KNOWN-FINDING: property={pid} {k['what']}")
                 continue
-            ops, shrunk = shrink(run, f["history"], f["kind"], f["seed"]) if (f["kind"] != "BADLINE" and len(f["history"]) > 2) else (f["history"], False)
+            # socket-level families replay by echoing the recorded trace (a live tracker cannot be re-driven to the
+            # same interleaving): the history is kept whole, with the answers that were observed
+            if run["harness"] in ("udpnet", "httpnet", "wsnet", "supervise"):
+                ops, shrunk = f["history"], False
+            else:
+                ops, shrunk = shrink(run, f["history"], f["kind"], f["seed"]) if (f["kind"] != "BADLINE" and len(f["history"]) > 2) else (f["history"], False)
             key = hashlib.sha1("\n".join(ops).encode()).hexdigest()[:10]
             if key in seen:
                 continue
